@@ -75,6 +75,14 @@ pub fn fuzz_eval(target: &str, data: &[u8]) -> Option<crate::engine::CaseResult>
             let case = c16::case_from_bytes(data).ok()?;
             Some(crate::engine::fuzz::eval_case(|rec| c16::check_case(&case, rec)))
         }
+        "c13_norm" => {
+            let case = c13::case_from_bytes(data).ok()?;
+            Some(crate::engine::fuzz::eval_case(|rec| c13::check_case(&case, rec)))
+        }
+        "c17_text" => {
+            let case = c17::case_from_bytes(data).ok()?;
+            Some(crate::engine::fuzz::eval_case(|rec| c17::check_case(&case, rec)))
+        }
         _ => None,
     }
 }
@@ -91,6 +99,8 @@ pub fn fuzz_target_property(target: &str) -> Option<&'static str> {
         "c16_glyf" => Some("C16"),
         "c06_cmap" => Some("C06"),
         "c10_container" => Some("C10"),
+        "c17_text" => Some("C17"),
+        "c13_norm" => Some("C13"),
         _ => None,
     }
 }
